@@ -176,6 +176,14 @@ def scenario_sim(delays, elapsed, sleeps, stop_kind):
             k = len(delivered[tid])
             if k < len(runrows[tid]):
                 check("due-results-delivered", expected_time(start[tid], cfg, runrows[tid][k]) > now)
+        for tid in list(running):
+            # the tuner stops polling a trial once the back end reports it completed: by then the whole
+            # sequence of the run must have been delivered
+            if status[tid][1] == "Completed":
+                check("all-results-before-completion", len(delivered[tid]) == len(runrows[tid]))
+                running.remove(tid)
+        if 0 not in running:
+            continue
         if t == 0 and stop_kind == 0:
             be.stop_trial(0)
             running = [1]
